@@ -1,7 +1,7 @@
 (* Properties/C02.v — marginal queries (missing cells) equal the sum over all completions. *)
 From Coq Require Import List Arith ZArith Ring.
 From DV Require Import Model.Core Model.Clt Model.Leaves
-  Proofs.CoreFacts Proofs.CltFacts Proofs.LeafFacts.
+  Proofs.CoreFacts Proofs.CltFacts Proofs.LeafFacts Proofs.CltGather.
 Import ListNotations.
 
 Section C02.
@@ -51,6 +51,16 @@ Section C02.
   Theorem C02_batch_rowwise : forall (c : clt T) (rows : list row),
       clt_batch T t0 t1 tadd tmul c rows = map (clt_lik T t0 t1 tadd tmul c) rows.
   Proof. exact (clt_batch_rowwise T t0 t1 tadd tmul). Qed.
+
+  (* the code's vectorised full-evidence gather (used for rows without missing cells) IS leaves-to-root
+     message passing on those rows, so BinaryCLT.log_likelihood evaluates every row — complete or
+     not — to the message-passing value about which marginalisation is proved above *)
+  Theorem C02_clt_gather_is_message_passing : forall c : clt T, clt_gwf T t0 c -> forall r,
+      complete_on (cscope c) r = true -> clt_gather T t0 t1 tmul c r = clt_val T t0 t1 tadd tmul c r.
+  Proof. exact (clt_gather_val T t0 t1 tadd tmul SRth). Qed.
+  Theorem C02_clt_lik_is_message_passing : forall c : clt T, clt_gwf T t0 c -> forall r,
+      clt_lik T t0 t1 tadd tmul c r = clt_val T t0 t1 tadd tmul c r.
+  Proof. exact (clt_lik_val T t0 t1 tadd tmul SRth). Qed.
 End C02.
 
 Print Assumptions C02_marginal.
@@ -59,3 +69,5 @@ Print Assumptions C02_all_missing_one.
 Print Assumptions C02_clt_marginal.
 Print Assumptions C02_clt_leaf_obligation.
 Print Assumptions C02_batch_rowwise.
+Print Assumptions C02_clt_gather_is_message_passing.
+Print Assumptions C02_clt_lik_is_message_passing.
